@@ -240,8 +240,10 @@ class ParseModel(object):
             raise AnalysisError('%s: score matrices over the tag/dep parameters not found' % H)
         self.agenda = self._one_local(lambda d: 'priority_queue<parsing::cell_item' in (d.type or ''),
                                       'agenda (priority_queue<cell_item>)')
-        self.scored = self._one_local(lambda d: 'vector<std::priority_queue<' in (d.type or ''),
+        self.scored = self._one_local(lambda d: 'vector<std::priority_queue<' in (d.type or '') or 'vector<std::priority_queue<' in (d.dtype or ''),
                                       'per-word candidate queues')
+        # desugared type of the candidate queues (aliases resolved): the comparator decides what top() means
+        self.scored_type = (locals_[self.scored].dtype or locals_[self.scored].type or '') if self.scored in locals_ else ''
         charts = [n for n, d in locals_.items() if (d.type or '') == 'parsing::chart']
         self.chart = self.goal = None
         self.chart_args = {}
